@@ -327,7 +327,7 @@ func genPaths(e *emitter) {
 		}
 	}
 	for _, p := range paths {
-		for ctxKind := 1; ctxKind <= 2; ctxKind++ {
+		for ctxKind := 1; ctxKind <= 6; ctxKind++ {
 			e.run(Case{Gen: "paths:" + p.name, Hist: p.hist, Ety: 1, Beh: p.beh, Sched: Sched{Ctx: ctxKind}})
 			e.run(Case{Gen: "paths-pre:" + p.name, Hist: p.hist, Ety: 1, Beh: p.beh, Sched: Sched{Ctx: ctxKind, Pre: true}})
 			// cancelled while Send runs (at the first hook that fires, if any) — and, for the paths that never reach a
@@ -338,6 +338,155 @@ func genPaths(e *emitter) {
 					pt.P = 1
 				}
 				e.run(Case{Gen: "paths-cancel:" + p.name, Hist: p.hist, Ety: 1, Beh: p.beh, Sched: Sched{Ctx: ctxKind, CancelAt: &pt}})
+			}
+		}
+	}
+}
+
+// ---------- sequence: several Sends on ONE Broker with registry calls in between ----------
+// Every Send must dispatch to exactly the pipelines registered at that moment (the model's roots are those of the registry
+// model after everything the Broker was told so far).  Base: three pipelines of type 1 (sharing nodes) and one of type 2,
+// thresholds = number of pipelines, so that an entry too many or too few flips Send's error.  Between the Sends each of:
+// RemovePipelineAndNodes, RemovePipeline, RegisterPipeline overwriting with other nodes, RegisterPipeline of an additional
+// pipeline, RemovePipeline+RemoveNode+re-register, RegisterNode rebinding an id + identical RegisterPipeline — all ordered
+// pairs of them (Send, m1, Send, m2, Send), plus random longer sequences.
+func seqBase() ([]Op, map[int]int) {
+	idType := map[int]int{1: 1, 2: 1, 3: 2, 4: 4, 5: 3, 6: 3}
+	ops := []Op{}
+	for id := 1; id <= 6; id++ {
+		ops = append(ops, Op{K: "regnode", ID: id, Ty: idType[id]})
+	}
+	ops = append(ops,
+		Op{K: "regpipe", Pid: 1, Ety: 1, IDs: []int{1, 3, 5}},
+		Op{K: "regpipe", Pid: 2, Ety: 1, IDs: []int{2, 4, 6}},
+		Op{K: "regpipe", Pid: 3, Ety: 1, IDs: []int{1, 4, 5}},
+		Op{K: "regpipe", Pid: 1, Ety: 2, IDs: []int{2, 3, 6}},
+		Op{K: "thr", Ety: 1, V: 3}, Op{K: "thrs", Ety: 1, V: 2})
+	return ops, idType
+}
+
+func seqMutations(idType map[int]int) [][]Op {
+	return [][]Op{
+		{{K: "rpan", Pid: 2, Ety: 1}},
+		{{K: "rmpipe", Pid: 1, Ety: 1}},
+		{{K: "regpipe", Pid: 1, Ety: 1, IDs: []int{2, 3, 6}}},
+		{{K: "regpipe", Pid: 4, Ety: 1, IDs: []int{1, 3, 6}}},
+		{{K: "rmpipe", Pid: 3, Ety: 1}, {K: "rmnode", ID: 4}, {K: "regnode", ID: 4, Ty: idType[4]}, {K: "regpipe", Pid: 3, Ety: 1, IDs: []int{1, 4, 5}}},
+		{{K: "regnode", ID: 1, Ty: idType[1]}, {K: "regpipe", Pid: 1, Ety: 1, IDs: []int{1, 3, 5}}},
+		{{K: "rpan", Pid: 3, Ety: 1}, {K: "regnode", ID: 1, Ty: idType[1]}, {K: "regnode", ID: 4, Ty: idType[4]}, {K: "regnode", ID: 5, Ty: idType[5]}},
+		{{K: "rpan", Pid: 1, Ety: 2}},
+	}
+}
+
+// number the objects of the regnode ops over the whole sequence
+func numberSeq(c *Case) int {
+	k := 0
+	num := func(ops []Op) {
+		for i := range ops {
+			if ops[i].K == "regnode" {
+				k++
+				ops[i].Obj = k
+			}
+		}
+	}
+	c.Hist = append([]Op{}, c.Hist...)
+	num(c.Hist)
+	for i := range c.Then {
+		c.Then[i].Ops = append([]Op{}, c.Then[i].Ops...)
+		num(c.Then[i].Ops)
+	}
+	return k
+}
+
+func genSequence(e *emitter, r *hc.Rand, nRandom int) {
+	base, idType := seqBase()
+	muts := seqMutations(idType)
+	mkBeh := func(n int, rr *hc.Rand) [][]int {
+		beh := make([][]int, n)
+		for o := range beh {
+			beh[o] = []int{0}
+			if rr != nil {
+				beh[o] = nil
+				for j := 0; j < 1+rr.Intn(3); j++ {
+					beh[o] = append(beh[o], []int{0, 0, 0, 0, 1, 2, 3, 72}[rr.Intn(8)])
+				}
+			}
+		}
+		return beh
+	}
+	for i, m1 := range muts {
+		for j, m2 := range muts {
+			c := Case{Gen: "sequence", Hist: base, Ety: 1, Then: []Step{{Ops: m1, Ety: 1}, {Ops: m2, Ety: 1}}}
+			if (i+j)%4 == 3 {
+				// the other type's Send in between must not be affected either
+				c.Then = append(c.Then, Step{Ety: 2})
+			}
+			n := numberSeq(&c)
+			c.Beh = mkBeh(n, nil)
+			// sinks complete by returning nil; every second sequence has behaviours from the PRNG
+			if (i+j)%2 == 1 {
+				c.Beh = mkBeh(n, r)
+			}
+			e.runSeq(c)
+		}
+	}
+	for k := 0; k < nRandom; k++ {
+		c := Case{Gen: "sequence-random", Hist: base, Ety: 1 + r.Intn(2)}
+		for s := 0; s < 2+r.Intn(4); s++ {
+			var ops []Op
+			for q := 0; q < 1+r.Intn(2); q++ {
+				ops = append(ops, muts[r.Intn(len(muts))]...)
+			}
+			if r.Chance(1, 4) {
+				ops = append(ops, Op{K: "thr", Ety: 1, V: int64(r.Intn(4))})
+			}
+			st := Step{Ops: ops, Ety: 1 + r.Intn(2), Sched: Sched{Jitter: r.U64() | 1}}
+			if r.Chance(1, 5) {
+				st.Sched.Pre = true
+			}
+			c.Then = append(c.Then, st)
+		}
+		n := numberSeq(&c)
+		c.Beh = mkBeh(n, r)
+		e.runSeq(c)
+	}
+}
+
+// ---------- twosend: a Send cancelled while one of its nodes is parked inside Process, then the next Send ----------
+// Send #1 is cancelled at the moment its gated node is about to be called; the node stays inside Process until Send #2 has
+// returned. Send #2 (context never cancelled, all its nodes return at once) must return without waiting for Send #1's node
+// (else its watchdog fires: hang), and when the node is finally let go nothing of either Send may remain. Repeated on one
+// Broker, Send #2 called from the same goroutine right after Send #1 returned and from goroutines of their own, on the same
+// and on another event type.
+func genTwoSend(e *emitter, r *hc.Rand, reps int) {
+	idType := map[int]int{1: 1, 2: 2, 3: 3, 4: 4, 5: 3}
+	var base []Op
+	for id := 1; id <= 5; id++ {
+		base = append(base, Op{K: "regnode", ID: id, Ty: idType[id]})
+	}
+	base = append(base, Op{K: "regpipe", Pid: 1, Ety: 1, IDs: []int{1, 2, 3}}, Op{K: "regpipe", Pid: 2, Ety: 1, IDs: []int{4, 5}},
+		Op{K: "regpipe", Pid: 1, Ety: 2, IDs: []int{1, 2, 3}}, Op{K: "thr", Ety: 1, V: 2})
+	// (gated object, pipeline, position of the gated node)
+	for _, g := range [][3]int{{3, 1, 2}, {1, 1, 0}, {5, 2, 1}, {2, 1, 1}} {
+		for _, caller := range []int{1, 0} {
+			for _, mode := range []int{0, 1} {
+				pt := Point{Hook: "node.call", P: g[1], K: g[2], Occ: 1}
+				c := Case{Gen: "twosend", Hist: base, Ety: 1, Gate: []int{g[0]},
+					Sched: Sched{CancelAt: &pt, Mode: mode, HoldGate: true, Caller: caller, Ctx: 1 + (g[0]+caller+mode)%3}}
+				for k := 0; k < reps; k++ {
+					// the pair (cancelled Send with a parked node, independent Send) again and again on the same Broker
+					c.Then = append(c.Then, Step{Ety: 1, Sched: Sched{Caller: caller, Ctx: 1}})
+					pt2 := pt
+					c.Then = append(c.Then, Step{Ety: 1, Gate: []int{g[0]}, Sched: Sched{CancelAt: &pt2, Mode: mode, HoldGate: true, Caller: caller}})
+				}
+				c.Then = append(c.Then, Step{Ety: 1, Sched: Sched{Caller: caller, Ctx: 2}}, Step{Ety: 2, Sched: Sched{Caller: 1 - caller}})
+				n := numberSeq(&c)
+				c.Beh = make([][]int, n)
+				for o := range c.Beh {
+					c.Beh[o] = []int{0}
+				}
+				c.Beh[2], c.Beh[4] = []int{2, 0}, []int{0, 2}
+				e.runSeq(c)
 			}
 		}
 	}
